@@ -140,7 +140,11 @@ fn cmd_check(id: &str, tier: Tier, child: bool) -> i32 {
         match determinism_proof(id) {
             Ok((v, a, n)) => {
                 parts[0].notes.push(format!("determinism proof: {} runs x 4 processes (1 and 16 worker threads): verdict logs {}, artefact logs {}", n, if v { "identical" } else { "DIFFER" }, if a { "identical" } else { "differ" }));
-                if !v {
+                if !v && (violations > 0 || child_violation) {
+                    // a tree that keeps state between calls (and breaks the property with it) is not deterministic across worker
+                    // counts either; the violations found stand, each with its own replay file
+                    eprintln!("note: verdict logs differ between 1 and 16 worker threads on this tree; the violations reported stand");
+                } else if !v {
                     eprintln!("harness error: verdict logs are not deterministic");
                     return 2;
                 }
@@ -418,6 +422,7 @@ fn main() {
             rc
         }
         Some("entropy-child") if args.len() >= 7 => sc_entropy::child_main(&args[2..]),
+        Some("scale-child") if args.len() >= 7 => sc_sign::scale_child_main(&args[2..]),
         Some("golden-write") if args.len() >= 3 => {
             let dir = &args[2];
             let _ = std::fs::create_dir_all(dir);
